@@ -313,6 +313,60 @@ fn run_cases_through_macro(ctx: &Ctx, envir: &Envir, cases: &[&Case]) {
     }
 }
 
+/// The same expressions as conditions: `.if <expr>` assembles its branch iff the value is not zero,
+/// and an expression that must fail (division by zero, overflow, also in an operand that cannot change
+/// the value) fails the build there too. Only what is known while the file is read can stand in a
+/// condition: literals and the .equ constants defined before.
+fn run_cases_as_conditions(ctx: &Ctx, envir: &Envir, cases: &[&Case]) {
+    let parse_time = |c: &&&Case| -> bool {
+        let t = c.text.to_lowercase();
+        !["pc", "lbl_", "setv", "eq_fwd"].iter().any(|w| t.contains(w))
+    };
+    let prelude: String = envir.prelude.lines().filter(|l| l.starts_with(".equ") || l.starts_with(';')).map(|l| format!("{}\n", l)).collect();
+    let values: Vec<&&Case> = cases.iter().filter(|c| matches!(c.exp, Expected::Value(_))).filter(parse_time).collect();
+    for chunk in values.chunks(24) {
+        let mut src = prelude.clone();
+        let mut expect: Vec<u8> = vec![];
+        for c in chunk {
+            src.push_str(&format!(".if {}\n\t.dw 1\n.else\n\t.dw 2\n.endif\n", c.text));
+            let Expected::Value(v) = c.exp else { unreachable!() };
+            expect.extend(if v != 0 { [1u8, 0] } else { [2u8, 0] });
+        }
+        let out = fw::build_str(&src);
+        ctx.eval(chunk.len() as u64);
+        ctx.count("expressions_as_conditions", chunk.len() as u64);
+        if !matches!(&out, Outcome::Ok(b) if b.code == expect) {
+            for c in chunk {
+                let Expected::Value(v) = c.exp else { unreachable!() };
+                let src1 = format!("{}.if {}\n\t.dw 1\n.else\n\t.dw 2\n.endif\n", prelude, c.text);
+                let o = fw::build_str(&src1);
+                let want: [u8; 2] = if v != 0 { [1, 0] } else { [2, 0] };
+                if !matches!(&o, Outcome::Ok(b) if b.code == want) {
+                    ctx.violation(
+                        format!("expr/as-condition/{}/wrong-branch", c.e.root_name()),
+                        format!("`.if {}` (value {}): {}", fw::clip(&c.text, 100), v, fw::clip(&format!("{:?}", o.brief()), 120)),
+                        json!({"source": src1, "expression": c.text, "as_condition": true, "expected_code": fw::hex(&want, 8), "observed": o.brief()}),
+                    );
+                }
+            }
+        }
+    }
+    let failing: Vec<&&Case> = cases.iter().filter(|c| matches!(c.exp, Expected::Fail(_))).filter(parse_time).collect();
+    for c in failing.iter().take(400) {
+        let src1 = format!("{}.if {}\n\t.dw 1\n.else\n\t.dw 2\n.endif\n", prelude, c.text);
+        let o = fw::build_str(&src1);
+        ctx.eval(1);
+        ctx.count("failing_expressions_as_conditions", 1);
+        if !o.is_err() {
+            ctx.violation(
+                format!("expr/as-condition/{}/error-swallowed", c.e.root_name()),
+                format!("`.if {}` must fail ({:?}) but: {}", fw::clip(&c.text, 100), c.exp, fw::clip(&format!("{:?}", o.brief()), 100)),
+                json!({"source": src1, "expression": c.text, "as_condition": true, "must_fail": true, "observed": o.brief()}),
+            );
+        }
+    }
+}
+
 fn grid_values() -> Vec<i64> {
     vec![0, 1, -1, 2, -2, 7, 8, 63, 64, 255, 256, 1 << 15, 1 << 16, 1 << 31, 1 << 32, 1 << 62, i64::MAX, i64::MIN]
 }
@@ -508,6 +562,7 @@ pub fn run(ctx: &Ctx) -> i32 {
     let pair_refs: Vec<&Case> = pairs.iter().collect();
     let pchunks: Vec<&[&Case]> = pair_refs.chunks(480).collect();
     fw::par_items(&pchunks, |_, cs| run_cases_through_macro(ctx, &envir, cs));
+    fw::par_items(&pchunks, |_, cs| run_cases_as_conditions(ctx, &envir, cs));
     // random parts, generated per chunk on the worker threads
     let per = nrandom / chunks;
     let idx: Vec<u64> = (0..chunks as u64).collect();
@@ -549,6 +604,17 @@ fn count_ops(e: &E, m: &mut std::collections::BTreeMap<String, u64>) {
 }
 
 pub fn replay(ctx: &Ctx, case: &Value) -> i32 {
+    if case["as_condition"].as_bool() == Some(true) {
+        let out = fw::build_str(case["source"].as_str().unwrap_or(""));
+        ctx.eval(1);
+        ctx.distinct(1);
+        ctx.distinct(2);
+        let bad = if case["must_fail"].as_bool() == Some(true) { !out.is_err() } else { !matches!(&out, Outcome::Ok(b) if fw::hex(&b.code, 8) == case["expected_code"].as_str().unwrap_or("")) };
+        if bad {
+            ctx.violation("expr/as-condition/replay", "still deviates", case.clone());
+        }
+        return fw::finish(ctx, "replay", &[]);
+    }
     if case["through_macro"].as_bool() == Some(true) || case["through_macro"].is_string() {
         // stored program + expected set in debug form: only single values are replayable
         let src = case["source"].as_str().unwrap_or("");
